@@ -125,11 +125,17 @@ type ContractDB struct {
 	ModSets  map[string][]*CExpr
 	GlobalInvs map[string][]Clause // package path -> invariants over package variables
 	Immutable  []ImmutableDecl     // fields that are written only while their object is being constructed
+	GlobalLocks []GlobalLock       // package variables protected by a package-level mutex
 }
 
 // ImmutableDecl: "immutable T.f" — no function of the module stores into field f of a T except the function that
 // allocated that very object (checked over the whole module by every check that verifies a function of the package)
 type ImmutableDecl struct{ Pkg, Type, Field, Src string }
+
+// GlobalLock: "globallock v by m" — package variable v (read and written by functions that run concurrently, e.g. HTTP
+// handlers) is only accessed while the package-level mutex m is held. Obligation monitor/held(global v) at every access in
+// a verified function; if m does not exist the obligation cannot be met.
+type GlobalLock struct{ Pkg, Var, Lock, Src string }
 
 type Lemma struct {
 	Pkg  string
@@ -357,6 +363,13 @@ func (db *ContractDB) LoadFile(path, pkgPath string, assumed bool) error {
 					}
 					db.ModSets[name] = append(db.ModSets[name], e)
 				}
+			case "globallock":
+				// globallock <variable> by <mutex variable>: every access to the package variable happens with the package-level mutex held
+				f := strings.Fields(rest)
+				if len(f) != 3 || f[1] != "by" {
+					return errf(l, "globallock <variable> by <mutex variable>")
+				}
+				db.GlobalLocks = append(db.GlobalLocks, GlobalLock{Pkg: pkgPath, Var: f[0], Lock: f[2], Src: "globallock " + rest})
 			case "immutable":
 				parts := strings.Split(strings.TrimSpace(rest), ".")
 				if len(parts) != 2 {
